@@ -5,6 +5,7 @@ The answer is computed by the very definitions the theorems in `Omaha/Props` are
 import Omaha.Drv.Version
 import Omaha.Drv.Time
 import Omaha.Drv.Cup
+import Omaha.Drv.Request
 
 open Omaha Omaha.Drv
 
@@ -13,6 +14,7 @@ def handleLine (line : String) : String :=
   | "version" :: rest => handleVersion rest
   | "time" :: rest => handleTime rest
   | "cup" :: rest => handleCup rest
+  | "wire-req" :: rest => handleRequest rest
   | _ => "bad-op"
 
 partial def loop (h : IO.FS.Stream) (out : IO.FS.Stream) : IO Unit := do
